@@ -332,7 +332,10 @@ func tamperTable() []tamper {
 
 	l1 := func(name string, f func(t *rapid.T, x *core.L1HandlerTransaction)) {
 		add(txField("l1-handler/"+name, func(t *rapid.T, b *gen.Block) (core.Transaction, int, bool) {
-			x, i, ok := pickTx[*core.L1HandlerTransaction](t, b, nil)
+			// nonce-less (first-generation) L1 handlers are excluded like declare v0 / deploy: juno documents that their
+			// hash cannot be recomputed ("some l1 handler transaction which do not return a nonce"), so their fields are
+			// not committed by anything it can verify
+			x, i, ok := pickTx(t, b, func(x *core.L1HandlerTransaction) bool { return x.Nonce != nil })
 			if ok {
 				f(t, x)
 			}
